@@ -2252,6 +2252,15 @@ func (db *DB) Drop(ctx context.Context) (err error) {
 	var commit uint32
 	var txPageCount int
 	var pos ltx.Pos
+
+	// A drop is a transaction like any other: it runs under the write lock so
+	// that no connection commits, and no transaction is applied, in the middle.
+	guard, err := db.AcquireWriteLock(ctx, nil)
+	if err != nil {
+		return err
+	}
+	defer guard.Unlock()
+
 	prevPos := db.Pos()
 	prevPageN := db.PageN()
 	txID := prevPos.TXID + 1
